@@ -358,6 +358,96 @@ theorem other_streams_untouched (p : Pool) (k k' : Key) (fo : Nat) (mf : Bool) (
           exact lookup_replace_ne k k' _ hne _
   · rw [process_notfrag p k fo mf pl ts hf]
 
+/-- the stream an operation belongs to -/
+def opKey : Defrag.Op → Option Key
+  | .deliver (.frag k _ _ _) _ => some k
+  | .deliver (.plain k _) _ => some k
+  | _ => none
+
+/-- the history as stream `k` alone sees it: its own packets and the `retain` calls; the packets of
+    all other streams, ARP frames and buffer returns are removed -/
+def project (k : Key) : List Defrag.Op → List Defrag.Op
+  | [] => []
+  | op :: ops =>
+    match op with
+    | .retain m => .retain m :: project k ops
+    | op => if opKey op = some k then op :: project k ops else project k ops
+
+/-- the outputs of the operations of stream `k` -/
+def outputsFor (k : Key) : List Defrag.Op → List Defrag.Out → List Defrag.Out
+  | op :: ops, o :: os => if opKey op = some k then o :: outputsFor k ops os else outputsFor k ops os
+  | _, _ => []
+
+/-- **streams never mix** (history level): in any history, what the pool answers to the packets of
+    stream `k` is what it answers when the packets of all other streams (any other key: other
+    version, addresses, identification, protocol, VLAN ids or channel), the ARP frames and the buffer
+    returns are removed from the history. -/
+theorem streams_never_mix_from (k : Key) (ops : List Defrag.Op) : ∀ (s s' : Session),
+    lookup k s.pool.active = lookup k s'.pool.active →
+    UniqueKeys s.pool.active → UniqueKeys s'.pool.active →
+    outputsFor k ops (s.run ops).2 = outputsFor k (project k ops) (s'.run (project k ops)).2 := by
+  induction ops with
+  | nil => intro s s' _ _ _; rfl
+  | cons op rest ih =>
+    intro s s' h hu hu'
+    cases op with
+    | deliver pkt ts =>
+      cases pkt with
+      | frag k2 fo mf pl =>
+        by_cases hk : k2 = k
+        · subst hk
+          have hs := step_same_key k2 fo mf pl ts h hu hu'
+          have := ih (s.step (.deliver (.frag k2 fo mf pl) ts)).1
+            (s'.step (.deliver (.frag k2 fo mf pl) ts)).1 hs.2 (unique_step _ _ hu) (unique_step _ _ hu')
+          simp only [project, opKey, if_true, Session.run, outputsFor, hs.1, this]
+        · have hl : lookup k (s.step (.deliver (.frag k2 fo mf pl) ts)).1.pool.active =
+              lookup k s'.pool.active := by
+            rw [step_pool, other_streams_untouched s.pool k2 k fo mf pl ts (fun hh => hk hh.symm)]
+            exact h
+          have := ih (s.step (.deliver (.frag k2 fo mf pl) ts)).1 s' hl (unique_step _ _ hu) hu'
+          have hne : ¬ (some k2 = some k) := fun hh => hk (Option.some.inj hh)
+          simp only [project, opKey, hne, if_false, Session.run, outputsFor, this]
+      | plain k2 pl =>
+        by_cases hk : k2 = k
+        · subst hk
+          have := ih (s.step (.deliver (.plain k2 pl) ts)).1 (s'.step (.deliver (.plain k2 pl) ts)).1
+            h hu hu'
+          simp only [project, opKey, if_true, Session.run, outputsFor, this]
+          rfl
+        · have := ih (s.step (.deliver (.plain k2 pl) ts)).1 s' h hu hu'
+          have hne : ¬ (some k2 = some k) := fun hh => hk (Option.some.inj hh)
+          simp only [project, opKey, hne, if_false, Session.run, outputsFor, this]
+      | nonIp =>
+        have := ih (s.step (.deliver .nonIp ts)).1 s' h hu hu'
+        have hne : ¬ ((none : Option Key) = some k) := fun hh => by cases hh
+        simp only [project, opKey, hne, if_false, Session.run, outputsFor, this]
+    | ret =>
+      have hl : lookup k (s.step .ret).1.pool.active = lookup k s'.pool.active := by
+        simp only [Session.step]
+        split
+        · exact h
+        · exact h
+      have := ih (s.step .ret).1 s' hl (unique_step _ _ hu) hu'
+      have hne : ¬ ((none : Option Key) = some k) := fun hh => by cases hh
+      simp only [project, opKey, hne, if_false, Session.run, outputsFor, this]
+    | retain m =>
+      have hl : lookup k (s.step (.retain m)).1.pool.active =
+          lookup k (s'.step (.retain m)).1.pool.active := by
+        have e1 := lookup_filter (fun e => decide (e.2.2 ≥ m)) k _ hu
+        have e2 := lookup_filter (fun e => decide (e.2.2 ≥ m)) k _ hu'
+        simp only [Session.step, Pool.retain]
+        rw [e1, e2, h]
+      have := ih (s.step (.retain m)).1 (s'.step (.retain m)).1 hl (unique_step _ _ hu)
+        (unique_step _ _ hu')
+      have hne : ¬ ((none : Option Key) = some k) := fun hh => by cases hh
+      simp only [project, opKey, hne, if_false, Session.run, outputsFor, this]
+
+/-- **streams never mix**, for a new pool. -/
+theorem streams_never_mix (k : Key) (ops : List Defrag.Op) :
+    outputsFor k ops (Session.new.run ops).2 =
+      outputsFor k (project k ops) (Session.new.run (project k ops)).2 :=
+  streams_never_mix_from k ops Session.new Session.new rfl trivial trivial
+
 /-! ### the pool refines the abstract pool, over all histories -/
 
 /-- **pool_refines**: from any pool state whose streams represent abstract streams (`Rel`; the
@@ -547,6 +637,15 @@ example : (bufRun (Buf.new 17) [(1, false, [9])]).data =
 example (junk : List (List Cell)) (secs : List (List Range)) :
     Rel ({ pool := { active := [], finishedDataBufs := junk, finishedSectionBufs := secs },
            outstanding := [] } : Session).pool.active [] := trivial
+/-- `project` keeps the packets of the stream and the `retain` calls, drops the rest -/
+example :
+    let k1 : Key := { ver := 4, source := [10, 0, 0, 1], destination := [10, 0, 0, 2], identification := 7,
+                      payloadIpNumber := 17, vlanIds := [], channelId := 0 }
+    let k2 : Key := { k1 with channelId := 1 }
+    project k1 [.deliver (.frag k1 0 true [1, 2, 3, 4, 5, 6, 7, 8]) 0, .deliver (.frag k2 0 true [9, 9, 9, 9, 9, 9, 9, 9]) 1,
+                .ret, .retain 0, .deliver (.frag k1 1 false [9]) 2] =
+      [.deliver (.frag k1 0 true [1, 2, 3, 4, 5, 6, 7, 8]) 0, .retain 0, .deliver (.frag k1 1 false [9]) 2] := by
+  simp [project, opKey]
 /-- `UniqueKeys` holds for a new pool -/
 example : UniqueKeys Session.new.pool.active := trivial
 
